@@ -15,6 +15,8 @@ import (
 //
 //	first-ok       valid server-first for the running exchange (client nonce + suffix, salt, count)
 //	first-foreign  server-first whose nonce does not extend the client's nonce
+//	first-prefix   server-first whose nonce is the first half of the client's nonce, nothing more
+//	junk-prompt    "Username:" — text that is no attribute list at all
 //	first-trunc    server-first whose nonce is a proper prefix of the client's nonce plus a suffix
 //	first-malformed server-first with broken salt/iteration fields
 //	final-ok       the valid server-final of the running exchange (only computable after first-ok
@@ -213,6 +215,11 @@ func (ad *adversary) Step(resp []byte, has bool) StepOut {
 		}
 		msg = "r=" + cn + suffix + ",s=" + salt64 + ",i=" + strconv.Itoa(ad.iter())
 		ad.first = ""
+	case "first-prefix":
+		// nothing but the beginning of the client's own nonce: no server part at all, and not
+		// even the whole client part (a comparison limited to the shorter of the two passes)
+		msg = "r=" + ad.cn[:len(ad.cn)/2] + ",s=" + salt64 + ",i=" + strconv.Itoa(ad.iter())
+		ad.first = ""
 	case "first-malformed":
 		msg = "r=" + ad.cn + suffix + ",s=***not-base64***,i=many"
 		ad.first = ""
@@ -273,6 +280,9 @@ func (ad *adversary) Step(resp []byte, has bool) StepOut {
 		msg = ""
 	case "junk":
 		msg = "x=hello,this is junk"
+	case "junk-prompt":
+		// text that does not even look like an attribute list (the prompt of another mechanism)
+		msg = "Username:"
 	case "hangup":
 		ad.Trace = append(ad.Trace, st)
 		return StepOut{Hangup: true}
